@@ -288,6 +288,44 @@ Definition eff_graph_seq (d : delegate) (pop : list ind) (i : ind) : graph :=
   cached_graph (remote_compute_cache d pop) (Some (uid i)) (gr i).
 
 (* ------------------------------------------------------------------------------------- *)
+(* one dispatcher object used several times: dispatch(objective, timer) stores the objective *)
+(* and `timer or get_forever_timer()`; the evaluation operator reads both from the object;    *)
+(* every evaluation recomputes the delegate cache and resets it afterwards.  (Evaluating      *)
+(* before the first dispatch is outside the model: the objective is None then.  The call      *)
+(* index of the timer restarts with every evaluation: the sessions driven by the harness use  *)
+(* timers whose answer does not depend on the number of earlier calls.)                       *)
+(* ------------------------------------------------------------------------------------- *)
+Record dstate := { s_objective : objective; s_timer : nat -> bool; s_cache : dict graph }.
+
+Definition forever_timer : nat -> bool := fun _ => false.
+
+Definition dispatch_op (st : dstate) (o : objective) (t : option (nat -> bool)) : dstate :=
+  {| s_objective := o;
+     s_timer := match t with Some tm => tm | None => forever_timer end;
+     s_cache := s_cache st |}.
+
+(* what a freshly built and dispatched dispatcher answers *)
+Definition evaluate_fresh (par : bool) (o : objective) (d : delegate) (timer : nat -> bool) (pop : list ind)
+  : res (list ind) * list ev :=
+  if par then evaluate_with_cache o d timer pop else sequential_evaluate o d timer pop.
+
+Definition evaluate_op (par : bool) (d : delegate) (st : dstate) (pop : list ind)
+  : (res (list ind) * list ev) * dstate :=
+  (evaluate_fresh par (s_objective st) d (s_timer st) pop,
+   {| s_objective := s_objective st; s_timer := s_timer st; s_cache := [] |}).   (* _reset_eval_cache *)
+
+Inductive step := Dispatch (o : objective) (t : option (nat -> bool)) | Evaluate (pop : list ind).
+
+(* the answers of the evaluations of a session, in order *)
+Fixpoint run_session (par : bool) (d : delegate) (st : dstate) (steps : list step)
+  : list (res (list ind) * list ev) :=
+  match steps with
+  | [] => []
+  | Dispatch o t :: rest => run_session par d (dispatch_op st o t) rest
+  | Evaluate pop :: rest => let '(r, st') := evaluate_op par d st pop in r :: run_session par d st' rest
+  end.
+
+(* ------------------------------------------------------------------------------------- *)
 (* boolean equalities and small list tools for the executable predicates                   *)
 (* ------------------------------------------------------------------------------------- *)
 Definition Q_eqb (a b : Q) : bool := Z.eqb (Qnum a) (Qnum b) && Pos.eqb (Qden a) (Qden b).
